@@ -107,6 +107,18 @@ def run(ctx: Ctx) -> Result:
                     try: lk = T.make_timestamp_between_lock(b_, e_).bytes
                     except BaseException: continue
                     cases.append(('between_lock', cfg, cache, lk, ('T' if t < e_ else 'F') if (t >= b_ and slack_ok) else 'ERR', (b_, t, now, 60)))
+    # the same checks inside a called function, after a call has returned, and inside an IF body: the verifier's clock and
+    # thresholds are the run's, wherever the instruction sits (every 7th case, all kinds)
+    def deff(h, b): return op('DEF') + bytes([h]) + len(b).to_bytes(2, 'big') + b
+    nested = []
+    tagmap = {}
+    for j, (kind, cfg, cache, script, exp, meta) in enumerate(cases):
+        if j % 7: continue
+        nested.append((kind, cfg, cache, deff(0, script) + op('CALL') + b'\x00', exp, meta)); tagmap[nested[-1][3]] = ' [inside def/call]'
+        nested.append((kind, cfg, cache, deff(0, op('TRUE') + op('POP0')) + op('CALL') + b'\x00' + script, exp, meta)); tagmap[nested[-1][3]] = ' [after a call returned]'
+        nested.append((kind, cfg, cache, op('TRUE') + op('IF') + len(script).to_bytes(2, 'big') + script, exp, meta)); tagmap[nested[-1][3]] = ' [inside IF]'
+        nested.append((kind, cfg, cache, op('TRUE') + op('LOOP') + b'\x00\x02' + op('POP0') + op('FALSE') + op('POP0') + script, exp, meta)); tagmap[nested[-1][3]] = ' [after a loop]'
+    cases.extend(nested)
     # run on the implementation and judge by the documented formula
     outs = []
     def work():
@@ -132,7 +144,7 @@ def run(ctx: Ctx) -> Result:
                 k1 += 1
                 continue
             if len(res.violations) < 10:
-                res.violations.append({'input': {'what': kind, 'script': script.hex(), 'cfg': cfg.line(), 'cache': vmrun.cache_str(cache, False),
+                res.violations.append({'input': {'what': kind + tagmap.get(script, ''), 'script': script.hex(), 'cfg': cfg.line(), 'cache': vmrun.cache_str(cache, False),
                                                  'c_or_ts': c_, 't': t_, 'now': now_, 'threshold': thr_},
                                        'expected': exp, 'observed': got + ' (' + o[:100] + ')', 'how_to_run': './check C16 --replay <this file>'})
     if k1:
